@@ -15,7 +15,9 @@ in flight.
 (b) the history must be a behaviour of `IceModel.Notifier`: a set of model configurations is carried
     along the history; unobserved model steps (the critical sections of pending enqueues / closers,
     `drainLock`, `drainDone`, `closeWait`) are interleaved in every possible way (closure), observed
-    events must be enabled.  Model output `recorded`, or `rejected:<position>:<token>:<why>`.
+    events must be enabled.  Model output `recorded`, or `rejected:<position>:<token>:<why>`.  The closure is bounded
+    (`closureFuel` expansions); when it gives up and the configuration set later empties the line is INCONCLUSIVE
+    (`recorded` + `Res.inconclusive`), never rejected.
 -/
 namespace Driver.Notifier
 open IceModel.Notifier IceSpec.C11 Driver
@@ -110,20 +112,23 @@ def internalSucc0 (order : List Nat) (c : Cfg) : List Cfg :=
 def internalSucc (order : List Nat) (c : Cfg) : List Cfg :=
   (internalSucc0 order c).map fun n => { n with st := norm n.st }
 
-/-- closure under unobserved steps (worklist; `fuel` bounds the number of expansions) -/
-def closure (order : List Nat) (fuel : Nat) (seen : List Cfg) (work : List Cfg) : List Cfg :=
+/-- closure under unobserved steps (worklist; `fuel` bounds the number of expansions).  The flag is `true` iff the work
+list was emptied (the result IS the closure), `false` iff the search gave up with configurations still unexpanded. -/
+def closure (order : List Nat) (fuel : Nat) (seen : List Cfg) (work : List Cfg) : List Cfg × Bool :=
   match fuel, work with
-  | 0, _ => seen
-  | _, [] => seen
+  | _, [] => (seen, true)
+  | 0, _ => (seen, false)
   | fuel + 1, c :: rest =>
     let (seen, new) := (internalSucc order c).foldl
       (fun (acc : List Cfg × List Cfg) n =>
         if acc.1.contains n then acc else (acc.1 ++ [n], acc.2 ++ [n])) (seen, [])
     closure order fuel seen (rest ++ new)
 
-def close (order : List Nat) (cs : List Cfg) : List Cfg :=
+def closureFuel : Nat := 4000
+
+def close (order : List Nat) (cs : List Cfg) : List Cfg × Bool :=
   let start := cs.foldl (fun acc c => (insertNew acc c).1) []
-  closure order 4000 start start
+  closure order closureFuel start start
 
 def findDrainer (st : State) (p : DPc → Bool) : Option Nat :=
   (List.range st.drainers.length).find? fun i => match st.drainers[i]? with
@@ -168,7 +173,10 @@ search below decides. -/
 
 def markDone (c : Cfg) (k : Nat) : List Pend := c.pend.map fun q => if q.k == k then { q with done := true } else q
 
-/-- append every pending delivered event that is next in delivery order, repeatedly -/
+/-- append every pending delivered event that is next in delivery order, repeatedly.  `fuel` is a termination device:
+every round marks one more pending enqueue `done`, so `|pend| + 1` rounds always suffice; and the greedy pass can only
+ACCEPT (its run is a witness) — when it fails, whatever the reason, the exhaustive search decides, so running out of
+fuel here can never cause a rejection. -/
 def greedyEnq (order : List Nat) (fuel : Nat) (c : Cfg) : Cfg :=
   match fuel with
   | 0 => c
@@ -232,26 +240,35 @@ def whyEmpty : HEv → String
   | .crash => "the model has no panics"
   | _ => "not enabled"
 
-def acceptSearch (toks : List String) : String :=
+/-- Result of the exhaustive search: the model's output and, if the search gave up, why.  A `rejected:` output is
+produced only when every closure up to that position was complete (the event is impossible in every configuration of a
+FULLY explored frontier); if the configuration set empties after some closure ran out of fuel the configuration that
+explains the event may not have been reached: no verdict (`recorded` + reason). -/
+def acceptSearch (toks : List String) : String × Option String :=
   let order := toks.filterMap fun t => match parseTok t with
     | some (.enter e) => some e
     | _ => none
-  let rec go (cs : List Cfg) (pos : Nat) : List String → String
-    | [] => "recorded"
+  let rec go (cs : List Cfg) (complete : Bool) (pos : Nat) : List String → String × Option String
+    | [] => ("recorded", none)
     | t :: rest =>
       match parseTok t with
-      | none => s!"bad-op token {t}"
+      | none => (s!"bad-op token {t}", none)
       | some ev =>
-        let next := close order ((cs.filterMap (observe · ev)).map fun n => { n with st := norm n.st })
-        if next.isEmpty then s!"rejected:{pos}:{t}:{whyEmpty ev}" else go next (pos + 1) rest
-  go (close order [Cfg.init]) 0 toks
+        let (next, ok) := close order ((cs.filterMap (observe · ev)).map fun n => { n with st := norm n.st })
+        let complete := complete && ok
+        if next.isEmpty then
+          if complete then (s!"rejected:{pos}:{t}:{whyEmpty ev}", none)
+          else ("recorded", some s!"closure over unobserved steps ran out of fuel ({closureFuel} expansions) at or before position {pos} ({t})")
+        else go next complete (pos + 1) rest
+  let (c0, ok0) := close order [Cfg.init]
+  go c0 ok0 0 toks
 
-def accept (toks : List String) : String :=
+def accept (toks : List String) : String × Option String :=
   match toks.mapM parseTok with
   | none => acceptSearch toks
   | some evs =>
     let order := evs.filterMap fun | .enter e => some e | _ => none
-    if greedy order evs then "recorded" else acceptSearch toks
+    if greedy order evs then ("recorded", none) else acceptSearch toks
 
 def monitor (toks : List String) : Option String :=
   match toks.mapM parseTok with
@@ -261,7 +278,8 @@ def monitor (toks : List String) : Option String :=
 def line (toks : List String) (_impl : String) : Res :=
   match toks with
   | "hist" :: _stream :: _scen :: evs =>
-    { model := accept evs, monitor := monitor evs, prop := "C11" }
+    let (model, inc) := accept evs
+    { model := model, monitor := monitor evs, prop := "C11", inconclusive := inc }
   | _ => bad "notifier: unknown op"
 
 -- @component notifier
